@@ -340,6 +340,26 @@ func e2eC16(repo, dir string, vals map[string]string) ([]string, error) {
 			bad = append(bad, "three converters in one file: generated package does not compile: "+firstLine(out))
 		}
 	}
+	// several output files in one output package: every one of them carries the constraint
+	e.write("twof/in.go", "package twof\n\n// goverter:converter\n// goverter:output:file ./a.gen.go\n// goverter:output:package e2e/twof\ntype A interface {\n\tConvert(source In) Out\n}\n\n// goverter:converter\n// goverter:output:file ./b.gen.go\n// goverter:output:package e2e/twof\ntype B interface {\n\tConvert(source In) Out\n}\n\n// goverter:converter\n// goverter:output:file ./sub/c.gen.go\n// goverter:output:package e2e/twof/sub\ntype C3 interface {\n\tConvert(source In) Out\n}\ntype In struct{ A int }\ntype Out struct{ A int }\n")
+	for _, cons := range [][]string{nil, {"-build-tags", "codegen", "-output-constraint", "!codegen"}} {
+		want := "//go:build !goverter"
+		if cons != nil {
+			want = "//go:build !codegen"
+		}
+		for _, f := range []string{"a.gen.go", "b.gen.go", "sub/c.gen.go"} {
+			os.Remove(filepath.Join(e.dir, "twof", f))
+		}
+		code, _, se = e.run(append(append([]string{"gen"}, cons...), "./twof")...)
+		for _, f := range []string{"a.gen.go", "b.gen.go", "sub/c.gen.go"} {
+			b, _ = os.ReadFile(filepath.Join(e.dir, "twof", f))
+			ls := strings.Split(string(b), "\n")
+			if code != 0 || len(ls) < 2 || ls[1] != want {
+				bad = append(bad, fmt.Sprintf("output file %s of a package with several output files: exit %d, second line %q, want %q: %s", f, code, strings.Join(ls[1:min(2, len(ls))], ""), want, firstLine(se)))
+			}
+		}
+	}
+	os.RemoveAll(filepath.Join(e.dir, "twof"))
 	// a variables block carries the constraint as well, and outdated output never blocks regeneration
 	vars := "package vars\n\n// goverter:variables\nvar (\n\tConvert func(source In) Out\n)\n\ntype In struct{ NAME int }\ntype Out struct{ NAME int }\n"
 	for _, cons := range [][]string{nil, {"-build-tags", "gen", "-output-constraint", "!gen"}} {
@@ -565,6 +585,44 @@ func e2eC15(repo, dir string, vals map[string]string) ([]string, error) {
 			bad = append(bad, fmt.Sprintf("output directory %q: exit %d, package clause is not `package %s`: %s", dirName, code, want, firstLine(se)))
 		}
 	}
+	// an explicit package name wins over the name of the package that already exists at the location
+	e.write("xt/in.go", "package xt\n\n// goverter:converter\n// goverter:output:file ./generated_test.go\n// goverter:output:package e2e/xt_test:xt_test\ntype C interface {\n\tConvert(source In) Out\n}\ntype In struct{ A int }\ntype Out struct{ A int }\n")
+	code, _, se = e.run("gen", "./xt")
+	if b, _ := os.ReadFile(filepath.Join(e.dir, "xt/generated_test.go")); code != 0 || !strings.Contains(string(b), "\npackage xt_test\n") {
+		bad = append(bad, "explicit output:package ...:xt_test next to the existing package xt: exit "+fmt.Sprint(code)+", package clause is not the explicit name: "+firstLine(se))
+	}
+	os.RemoveAll(filepath.Join(e.dir, "xt"))
+	// a variables block lands next to the file that declares it, not next to the first file of the package
+	e.write("vf/a_types.go", "package vf\n\ntype In struct{ A int }\ntype Out struct{ A int }\n")
+	e.write("vf/mapping.go", "package vf\n\n// goverter:variables\nvar (\n\tConvert func(source In) Out\n)\n")
+	e.write("vf/z_more.go", "package vf\n\n// goverter:variables\nvar (\n\tConvert2 func(source In) Out\n)\n")
+	code, _, se = e.run("gen", "./vf")
+	_, e1 := os.Stat(filepath.Join(e.dir, "vf/mapping.gen.go"))
+	_, e2 := os.Stat(filepath.Join(e.dir, "vf/z_more.gen.go"))
+	_, e3 := os.Stat(filepath.Join(e.dir, "vf/a_types.gen.go"))
+	if code != 0 || e1 != nil || e2 != nil || e3 == nil {
+		bad = append(bad, "variables blocks in the second and third file of a package: mapping.gen.go / z_more.gen.go missing or a_types.gen.go written: "+firstLine(se))
+	}
+	os.RemoveAll(filepath.Join(e.dir, "vf"))
+	// two spellings of one absolute output:file select one file: both converters are in it
+	abs1, abs2 := filepath.Join(e.dir, "ab/gen")+"/../gen/g.go", filepath.Join(e.dir, "ab/gen/g.go")
+	e.write("ab/in.go", "package ab\n\n// goverter:converter\n// goverter:output:file "+abs1+"\n// goverter:output:package e2e/ab/gen\ntype A interface {\n\tConvert(source In) Out\n}\n\n// goverter:converter\n// goverter:output:file "+abs2+"\n// goverter:output:package e2e/ab/gen\ntype B interface {\n\tConvert(source In) Out\n}\ntype In struct{ A int }\ntype Out struct{ A int }\n")
+	code, _, se = e.run("gen", "./ab")
+	if b, _ := os.ReadFile(filepath.Join(e.dir, "ab/gen/g.go")); code != 0 || strings.Count(string(b), "Impl struct") != 2 {
+		bad = append(bad, "two spellings of one absolute output:file: the file does not hold both converters: "+firstLine(se))
+	}
+	os.RemoveAll(filepath.Join(e.dir, "ab"))
+	// a variables block written to a file in another directory, without output:package: the package is inferred
+	// from that location like for an interface (existing package name, qualified references)
+	e.write("vo/a/in.go", "package a\n\ntype In struct{ A int }\ntype Out struct{ A int }\n\n// goverter:variables\n// goverter:output:file ../b/x.go\nvar (\n\tConvert func(source In) Out\n)\n")
+	e.write("vo/b/doc.go", "package bee\n")
+	code, _, se = e.run("gen", "./vo/a")
+	b0, _ := os.ReadFile(filepath.Join(e.dir, "vo/b/x.go"))
+	out0, berr := e.goBuild("./vo/...")
+	if code != 0 || !strings.Contains(string(b0), "\npackage bee\n") || berr != nil {
+		bad = append(bad, "variables block with output:file in another directory and no output:package: exit "+fmt.Sprint(code)+", package clause is not the existing package's or the result does not compile: "+firstLine(se)+firstLine(out0))
+	}
+	os.RemoveAll(filepath.Join(e.dir, "vo"))
 	// @cwd/ output into a sibling directory whose name merely starts like the declaring directory's
 	e.write("pre/conv/in.go", "package conv\n\n// goverter:converter\n// goverter:output:file @cwd/pre/convgen/generated.go\ntype C interface {\n\tConvert(source In) Out\n}\ntype In struct{ A int }\ntype Out struct{ A int }\n")
 	e.write("pre/convgen/doc.go", "package shared\n")
@@ -667,6 +725,57 @@ func e2eC09(repo, dir string, vals map[string]string) ([]string, error) {
 		bad = append(bad, fmt.Sprintf("%d different diagnostics for one set of two faulty packages named alike, depending on the pattern order", len(souts)))
 	}
 	os.RemoveAll(filepath.Join(e.dir, "same"))
+	// a wildcard pattern followed by a sibling directory whose name starts alike: the same files in both orders
+	for _, d := range []string{"pc/conv", "pc/conv/sub", "pc/convx"} {
+		e.write(d+"/in.go", "package "+filepath.Base(d)+"\n\n// goverter:converter\ntype C interface {\n\tConvert(source In) Out\n}\ntype In struct{ A int }\ntype Out struct{ A int }\n")
+	}
+	var ptrees []map[string]string
+	for _, pats := range [][]string{{"./pc/convx", "./pc/conv/..."}, {"./pc/conv/...", "./pc/convx"}, {"./pc/conv/...", "./pc/convx", "./pc/conv/sub", "./pc/convx"}} {
+		for _, d := range []string{"pc/conv", "pc/conv/sub", "pc/convx"} {
+			os.RemoveAll(filepath.Join(e.dir, d, "generated"))
+		}
+		code, _, se := e.run(append([]string{"gen"}, pats...)...)
+		t := map[string]string{"<exit>": fmt.Sprintf("%d %s", code, firstLine(se))}
+		for _, d := range []string{"pc/conv", "pc/conv/sub", "pc/convx"} {
+			b, _ := os.ReadFile(filepath.Join(e.dir, d, "generated/generated.go"))
+			t[d] = string(b)
+		}
+		ptrees = append(ptrees, t)
+	}
+	for i := 1; i < len(ptrees); i++ {
+		if d := sameTree(ptrees[0], ptrees[i]); len(d) > 0 {
+			bad = append(bad, "a wildcard pattern before / after a sibling directory with a common name prefix gives different output: "+strings.Join(d, ", "))
+			break
+		}
+	}
+	os.RemoveAll(filepath.Join(e.dir, "pc"))
+	// a declared method that carries the name goverter would give a generated helper: the helper gets another
+	// name, the output compiles and is the same in every process
+	e.write("nm/in.go", "package nm\n\n// goverter:converter\n// goverter:output:file ./nm.gen.go\n// goverter:output:package e2e/nm\ntype A interface {\n\tConvert(source []In) []Out\n\tnmInToNmOut(source *In) *Out\n}\ntype In struct{ A int }\ntype Out struct{ A int }\n")
+	nouts := map[string]bool{}
+	for i := 0; i < 12; i++ {
+		os.Remove(filepath.Join(e.dir, "nm/nm.gen.go"))
+		code, _, se := e.run("gen", "./nm")
+		b, _ := os.ReadFile(filepath.Join(e.dir, "nm/nm.gen.go"))
+		nouts[fmt.Sprintf("%d|%s|%s", code, se, b)] = true
+	}
+	if out, err := e.goBuild("./nm/..."); err != nil || len(nouts) > 1 {
+		bad = append(bad, fmt.Sprintf("declared method named like the helper of a nested pair: %d different outputs in 12 processes, build: %s", len(nouts), firstLine(out)))
+	}
+	os.RemoveAll(filepath.Join(e.dir, "nm"))
+	// several output files that cannot be rendered: the reported one must not depend on the process
+	for _, d := range []string{"ra", "rb", "rc"} {
+		e.write("rend/"+d+"/in.go", "package "+d+"\n\n// goverter:converter\n// goverter:output:raw func broken"+d+"( {\ntype C interface {\n\tConvert(source In) Out\n}\ntype In struct{ A int }\ntype Out struct{ A int }\n")
+	}
+	routs := map[string]bool{}
+	for i := 0; i < 24; i++ {
+		code, _, se := e.run("gen", "./rend/...")
+		routs[fmt.Sprintf("%d|%s", code, se)] = true
+	}
+	if len(routs) > 1 {
+		bad = append(bad, fmt.Sprintf("%d different diagnostics in 24 fresh processes for three output files that cannot be rendered", len(routs)))
+	}
+	os.RemoveAll(filepath.Join(e.dir, "rend"))
 	// several faulty variables in one goverter:variables block: the reported one must not depend on the process
 	e.write("vb/in.go", "package vb\n\ntype A struct{ X int }\ntype B struct{ X int }\n\n// goverter:variables\nvar (\n\t// goverter:bogusB\n\tToB func(A) B\n\t// goverter:bogusC\n\tToC func(A) B\n\t// goverter:bogusD\n\tToD func(A) B\n\t// goverter:bogusE\n\tToE func(A) B\n)\n")
 	vouts := map[string]bool{}
@@ -842,6 +951,27 @@ func e2eC19(repo, dir string, vals map[string]string) ([]string, error) {
 	if code != 0 || !strings.Contains(string(b), "type GroupedImpl struct") {
 		bad = append(bad, "marked interface inside a documented `type ( ... )` group is not generated: "+firstLine(se))
 	}
+	// markers on declarations that cannot carry them are reported
+	for _, c := range []struct{ name, src string }{
+		{"mfunc", "package mfunc\n\ntype In struct{ A int }\ntype Out struct{ A int }\n\n// goverter:converter\nfunc Convert(source In) Out { return Out{} }\n"},
+		{"mvarspec", "package mvarspec\n\ntype In struct{ A int }\ntype Out struct{ A int }\n\nvar (\n\t// goverter:variables\n\tConvert func(source In) Out\n)\n"},
+		{"mtypespec", "package mtypespec\n\ntype (\n\t// goverter:variables\n\tC interface{ Convert(source In) Out }\n\tIn struct{ A int }\n\tOut struct{ A int }\n)\n"},
+	} {
+		e.write(c.name+"/in.go", c.src)
+		if code, _, se := e.run("gen", "./"+c.name); code != 1 || !strings.Contains(se, "must be defined on") {
+			bad = append(bad, fmt.Sprintf("marker on a declaration that cannot carry it (%s): exit %d, want a diagnostic: %s", c.name, code, firstLine(se)))
+		}
+	}
+	// the doc comment of a method with a receiver says nothing about the custom function of the same name
+	e.write("recv/in.go", "package recv\n\ntype In struct{ ID int }\ntype Out struct{ ID string }\ntype Helper struct{}\n\nfunc Format(id int) string { return \"\" }\n\n// goverter:context id\nfunc (Helper) Format(id int) string { return \"\" }\n\n// goverter:converter\n// goverter:extend Format\ntype C interface {\n\tConvert(source In) Out\n}\n")
+	if code, _, se := e.run("gen", "./recv"); code != 0 {
+		bad = append(bad, "goverter:context in the doc comment of a method was applied to the custom function of the same name: "+firstLine(se))
+	}
+	// a very long comment line does not end the scan of the doc comment
+	e.write("long/in.go", "package long\n\ntype In struct{ A int }\ntype Out struct{ A, B int }\n\n// goverter:converter\ntype C interface {\n\t// "+strings.Repeat("x", 70000)+"\n\t// goverter:ignore B\n\tConvert(source In) Out\n}\n")
+	if code, _, se := e.run("gen", "./long"); code != 0 {
+		bad = append(bad, "a setting line after a comment line of 70000 bytes is lost: "+firstLine(se))
+	}
 	// trailing comments and detached comments are no settings
 	e.write("trail/in.go", "package trail\n\n// goverter:ignoreMissing\n\n// goverter:converter\ntype C interface {\n\tConvert(source In) Out // goverter:ignore Missing\n}\ntype In struct{ A int }\ntype Out struct{ A, Missing int }\n")
 	if code, _, _ := e.run("gen", "./trail"); code != 1 {
@@ -866,6 +996,11 @@ func e2eC06(repo, dir string, vals map[string]string) ([]string, error) {
 	e.write("noext/in.go", "package noext\n\n// goverter:converter\n// goverter:arg:context:regex ^ctx\n// goverter:extend Ext\ntype C interface {\n\tConvert(source []In) []Out\n}\n"+types+"func Ext(source In, ctxA Ctx) Out { return Out{} }\n")
 	if code, _, se := e.run("gen", "./noext"); code != 1 || !strings.Contains(se, "context") {
 		bad = append(bad, fmt.Sprintf("extend function for the element pair needs a context the calling method lacks: exit %d: %s", code, firstLine(se)))
+	}
+	// every alternative of an extend pattern is matched in full
+	e.write("alt/in.go", "package alt\n\n// goverter:converter\n// goverter:extend Conv|ConvX\ntype C interface {\n\tConvert(source In2) Out2\n}\ntype In2 struct {\n\tID int\n\tN int8\n}\ntype Out2 struct {\n\tID string\n\tN string\n}\nfunc Conv(id int) string { return \"\" }\nfunc ConvX(id int8) string { return \"\" }\n")
+	if code, _, se := e.run("gen", "./alt"); code != 0 {
+		bad = append(bad, "extend Conv|ConvX does not register ConvX: "+firstLine(se))
 	}
 	// with the context available both are called
 	e.write("okdecl/in.go", "package okdecl\n\n// goverter:converter\n// goverter:arg:context:regex ^ctx\ntype C interface {\n\tConvert(source []In, ctxA Ctx) []Out\n\tInner(source In, ctxA Ctx) Out\n}\n"+types)
